@@ -159,7 +159,29 @@ def run(tier, seed, binary, pool):
                               "event:Tick(80)", "event:Error"]
     complete = explore(rep, binary, pool, sizes, qmax, expand, 2_000_000)
     rep.exhaustive = complete
-    return rep.to_dict()
+    # the real terminal interface in a pseudo-terminal (key bytes -> crossterm -> tui.rs -> update() -> table.rs)
+    import os
+    import sysjet
+    work = os.path.join(os.path.dirname(os.path.dirname(os.path.dirname(binary))), "tmp")
+    nsess = 16 if tier == "quick" else 128
+    sess = pool.map(sysjet.c17_session, [(binary, os.path.join(work, f"tui{i % 16}"), (seed << 10) ^ i) for i in range(nsess)])
+    d = rep.to_dict()
+    for sr in sess:
+        if sr.get("_crashed"):
+            raise Inconclusive("pty session: " + sr.get("_stderr", "")[:300])
+        d["evaluations"] += sr["evaluations"]
+        for k, v in sr["classes"].items():
+            d["classes"][k] = d["classes"].get(k, 0) + v
+        for v in sr["violations"]:
+            if v["sig"] not in d["viol_count"]:
+                d["violations"].append(v)
+            d["viol_count"][v["sig"]] = d["viol_count"].get(v["sig"], 0) + 1
+        d["samples"] = (d["samples"] + sr["samples"])[:6]
+        d["_hashes"] = d["_hashes"] + sr["_hashes"]
+    d["extra"]["mandatory"] = d["extra"]["mandatory"] + ["system:keys-sent", "system:screen-drawn", "system:keys-typed-ahead-of-start-up"]
+    d["assumptions"].append("system level: jet1090 --interactive in a pseudo-terminal fed real key bytes (keys typed ahead of start-up, empty table, then 1-30 listed aircraft, a resize, "
+                            "search box with regular-expression metacharacters); judged: no panic on stderr, no end of session before a quit key")
+    return d
 
 
 def replay(binary, data):
